@@ -496,6 +496,8 @@ class Authorization(Endpoint):
                             if _req["expires_at"] < utc_time_sans_frac():
                                 raise ValueError("Got a request_uri that has expired")
                             _req = _req["request"]
+                            if not isinstance(_req, Message):
+                                _req = self.request_cls(**_req)
                         # Only the client that pushed the request can use it
                         if _req.get("client_id") != client_id:
                             raise ValueError("Got a request_uri that belongs to another client")
